@@ -136,3 +136,104 @@ package remote
 //@     invariant[C15.writer.loop.target] forall(q, 0 <= q && q < len(messages) ==> 0 <= messages[q].TargetIndex && messages[q].TargetIndex < len(targets) && pidkey(targets[messages[q].TargetIndex]) == pidkey(sdOf(msgs[mp[q]]).target))
 //@     invariant[C15.writer.loop.sender] forall(q, 0 <= q && q < len(messages) ==> (sdOf(msgs[mp[q]]).sender != nil ==> 0 <= messages[q].SenderIndex && messages[q].SenderIndex < len(senders) && pidkey(senders[messages[q].SenderIndex]) == pidkey(sdOf(msgs[mp[q]]).sender)) && (sdOf(msgs[mp[q]]).sender == nil ==> messages[q].SenderIndex == 0))
 //@     modifies elements(messages), mapof(typeLookup), mapof(senderLookup), mapof(targetLookup), elements(typeNames), elements(senders), elements(targets)
+
+// ---------------------------------------------------------------------------
+// Routing of remote sends (C17, partial): Remote.Send -> router actor -> one
+// stream writer per address; an unreachable address is forgotten so that the
+// next send makes a fresh attempt; Remote.Start/Stop state machine.
+
+// Fields of the router, the writers and the Remote, and the router's address
+// table (a map[string]*actor.PID), are not written by code reached through
+// Engine.SpawnProc/Send (user code and other actors have no reference to them).
+//@ private H$remote.streamRouter, H$remote.streamWriter, H$remote.streamDeliver, H$remote.Remote, MD$map<string>p.actor.PID, MV$map<string>p.actor.PID, MC$map<string>p.actor.PID
+
+//@ func (DRPCRemote_ReceiveStream).Close()
+//@   abstract
+//@   modifies
+
+//@ func newStreamWriter(e, rpid, address, tlsConfig, buffSize)
+//@   trusted
+//@   modifies
+//@   ensures !isnil(result) && writerAddr(result) == address
+//@ ghost func writerAddr(Iface) Str
+
+//@ func (*Remote).Send(pid, msg, sender)
+//@   props C17
+//@   requires r != nil && engInv(r.engine)
+//@   modifies log, loglen
+//@   ghost at call Send#1 before: assert[C17.remote.one-deliver-to-the-router] arg0 == r.engine && arg1 == r.streamRouterPID && istype(arg2, *streamDeliver) && arg2.(*streamDeliver) != nil &&
+//@        arg2.(*streamDeliver).target == pid && arg2.(*streamDeliver).sender == sender && arg2.(*streamDeliver).msg == msg
+//@   ensures[C17.remote.send-effect] (r.streamRouterPID != nil ==> loglen == entry(loglen) + 1 && addressedTo(log[entry(loglen)], r.streamRouterPID)) && (r.streamRouterPID == nil ==> loglen == entry(loglen)) && logPrefix(entry(loglen))
+
+//@ func (*streamRouter).handleTerminateStream(msg)
+//@   props C17
+//@   requires s != nil && s.streams != nil
+//@   modifies mapof(s.streams)
+//@   ensures[C17.router.forgets-the-unreachable-address] forallS("Str", a, has(s.streams, a) == (old(has(s.streams, a)) && a != msg.ListenAddr)) && forallS("Str", a, has(s.streams, a) ==> s.streams[a] == old(s.streams[a]))
+
+//@ func (*streamRouter).deliverStream(msg)
+//@   props C17
+//@   requires s != nil && s.streams != nil && engInv(s.engine) && msg != nil && msg.target != nil
+//@   modifies heap except private, mapof(s.streams), log, loglen
+//@   ghost at entry: spawned = false
+//@   ghost at call newStreamWriter#1 before: assert[C17.router.writer-for-the-target-address] arg0 == s.engine && arg1 == s.pid && arg2 == msg.target.Address
+//@   ghost at call SpawnProc#1: spawned = true
+//@   ghost at call Send#1 before: assert[C17.router.forwards-the-deliver-unchanged] arg0 == s.engine && arg1 == s.streams[msg.target.Address] && arg2 == msg && has(s.streams, msg.target.Address)
+//@   ghost at return#1: assert[C17.router.existing-writer-reused] old(has(s.streams, msg.target.Address)) ==> !spawned && s.streams[msg.target.Address] == old(s.streams[msg.target.Address])
+//@   ghost at return#1: assert[C17.router.one-writer-per-new-address] !old(has(s.streams, msg.target.Address)) ==> spawned
+//@   ensures[C17.router.table] has(s.streams, msg.target.Address) && forallS("Str", a, a != msg.target.Address ==> has(s.streams, a) == old(has(s.streams, a)) && s.streams[a] == old(s.streams[a]))
+
+//@ func (*streamRouter).Receive(ctx)
+//@   props C17
+//@   prune
+//@   requires s != nil && s.streams != nil && engInv(s.engine) && ctx != nil
+//@   requires istype(ctx.message, *streamDeliver) || istype(ctx.message, actor.RemoteUnreachableEvent)
+//@   requires istype(ctx.message, *streamDeliver) ==> ctx.message.(*streamDeliver) != nil && ctx.message.(*streamDeliver).target != nil
+//@   modifies heap except private, mapof(s.streams), log, loglen
+//@   ghost at call deliverStream#1 before: assert[C17.router.receive.deliver] arg0 == s && arg1 == ctx.message.(*streamDeliver)
+//@   ghost at call handleTerminateStream#1 before: assert[C17.router.receive.unreachable] arg0 == s && arg1 == ctx.message.(actor.RemoteUnreachableEvent)
+//@   ensures[C17.router.receive.unreachable-forgotten] istype(old(ctx.message), actor.RemoteUnreachableEvent) ==> !has(s.streams, old(ctx.message).(actor.RemoteUnreachableEvent).ListenAddr)
+
+// Shutdown of a stream writer (dial failed or connection lost): the router is
+// told first, then the event stream, then the writer stops its inbox and
+// unregisters, so that a later send to its PID dead-letters (C09).
+//@ func (*streamWriter).PID()
+//@   props C17
+//@   requires s != nil
+//@   pure
+//@   ensures result == s.pid
+
+//@ func (*streamWriter).Shutdown()
+//@   props C17
+//@   requires s != nil && engInv(s.engine) && !isnil(s.inbox) && s.pid != nil && anyoneMayStop
+//@   modifies mapof(s.engine.Registry.lookup), log, loglen, stoppedByMe
+//@   ghost at call Send#1 before: assert[C17.writer.shutdown.tells-the-router] arg0 == s.engine && arg1 == s.routerPID && arg2 == actor.RemoteUnreachableEvent{ListenAddr: s.writeToAddr}
+//@   ghost at call BroadcastEvent#1 before: assert[C17.writer.shutdown.publishes-unreachable] arg0 == s.engine && arg1 == actor.RemoteUnreachableEvent{ListenAddr: s.writeToAddr}
+//@   ensures[C17.writer.shutdown.order] log[loglen - 1] == RegRemove(s.engine.Registry, s.pid.ID) && log[loglen - 2] == InboxStop(s.inbox) &&
+//@        log[loglen - 3] == Broadcast(s.engine, actor.RemoteUnreachableEvent{ListenAddr: s.writeToAddr}) && loglen >= entry(loglen) + 3 && logPrefix(entry(loglen))
+
+// Remote.Stop: harmless when the remote is not running (nothing is signalled,
+// a fresh WaitGroup is returned); otherwise exactly one stop signal.
+//@ event StopSignal(ch Ref)
+//@ func (*Remote).Stop()
+//@   props C17
+//@   requires r != nil
+//@   modifies log, loglen, r.state
+//@   ghost at chansend: emit StopSignal(ch)
+//@   ensures[C17.remote.stop-when-not-running-is-harmless] old(aload(r, "state")) != stateRunning ==> aload(r, "state") == old(aload(r, "state")) && loglen == entry(loglen) && fresh(result)
+//@   ensures[C17.remote.stop-signals-once] old(aload(r, "state")) == stateRunning ==> aload(r, "state") == stateStopped && loglen == entry(loglen) + 1 && log[entry(loglen)] == StopSignal(r.stopCh) && result == r.stopWg
+
+// Remote.Start: a second Start (any state but "initialized") returns an error
+// and changes nothing; the first one moves the state to running before it does
+// anything else. (Listening, the drpc server and the router spawn are library
+// and engine calls outside this contract.)
+//@ func DRPCRegisterRemote(mux, impl)
+//@   trusted
+//@   modifies
+
+//@ func (*Remote).Start(e)
+//@   props C17
+//@   requires r != nil && engInv(e)
+//@   modifies heap except private, r.state, r.engine, r.streamRouterPID, r.stopWg, r.stopCh, log, loglen
+//@   ensures[C17.remote.start-moves-to-running] old(aload(r, "state")) == stateInitialized ==> aload(r, "state") == stateRunning
+//@   ensures[C17.remote.second-start-is-an-error-without-effect] old(aload(r, "state")) != stateInitialized ==> !isnil(result) && aload(r, "state") == old(aload(r, "state")) && r.engine == old(r.engine) && r.streamRouterPID == old(r.streamRouterPID) && loglen == entry(loglen)
